@@ -252,6 +252,13 @@ class Printer(PrinterBase):
 
     def make_constant(self, like, value):
         typ = self.get_type(like)
+        if isinstance(value, (complex, numpy.complexfloating)):
+            # str() of a complex value with non-finite parts, e.g. (inf+0j), is not an expression
+            re, im = (
+                {"inf": "numpy.inf", "-inf": "-numpy.inf", "nan": "numpy.nan"}.get(str(part), str(part))
+                for part in (value.real, value.imag)
+            )
+            return f"{typ}(complex({re}, {im}))"
         s = str(value)
         s = {"inf": "numpy.inf", "-inf": "-numpy.inf", "nan": "numpy.nan"}.get(s, s)
         return f"{typ}({s})"
